@@ -102,7 +102,7 @@ class HighloadWalletData(TlbScheme):
             .store_uint(self.wallet_id, 32) \
             .store_uint(self.last_cleaned, 64) \
             .store_bytes(self.public_key)\
-            .store_dict(HashMap(key_size=64, value_serializer=self.old_queries_serializer).serialize())
+            .store_dict(HashMap(key_size=64, value_serializer=self.old_queries_serializer, map_=dict(self.old_queries or {})).serialize())
         return builder.end_cell()
 
     @classmethod
@@ -126,5 +126,5 @@ class WalletMessage(TlbScheme):
         return builder.end_cell()
 
     @classmethod
-    def deserialize(cls, *args):
-        pass
+    def deserialize(cls, cell_slice: Slice):
+        return cls(send_mode=cell_slice.load_uint(8), message=MessageAny.deserialize(cell_slice.load_ref().begin_parse()))
